@@ -14,7 +14,7 @@ open FileD.StreamProc (Op)
     the held event is re-injected and handed to the output or dropped, and processEvent returns
     with no action busy: the stream is free to be left. Needs call depth ≥ chain length +
     children of `x` + 8 (the real stack is unbounded). -/
-theorem timeout_flushes_held_event (acts : List Act) (h f : Nat) (hch : Chain acts h)
+theorem timeout_flushes_held_event (acts : List Act) [NoCol acts] (h f : Nat) (hch : Chain acts h)
     (hget : acts[h]? = some (.holder f)) (ps : PS) (x : EvSpec) (hh : Holding ps h x)
     (last fuel : Nat) (hfuel : acts.length + x.kids + 8 ≤ fuel) :
     ∃ ps', procEv fuel acts .tmo (timeoutAction ps last) ps = (ps', .stopped h) ∧ Clean ps' ∧ ps'.ins = ps.ins ∧
@@ -33,5 +33,35 @@ example : (doActs 20 [.plain 0, .holder 0] 0 .tmo
 example : (discharge 40 [.plain 0, .holder 0] (PS.init
       [.ev { seq := 1, js := [.start] }, .ev { seq := 2, vs := [.discard] }, .tmo, .gap])).1.toks =
     [.get 1, .hold 1, .get 2, .drop 2, .getTimeout, .propagate 1, .out 1, .leave] := by decide +kernel
+
+/-- **a time-out event makes a collapse-only action let go**: an action that answered
+    ActionCollapse (busy, holding nothing — k8s multi-line, parse_es) gets the time-out event
+    whatever action handled the previous event, answers ActionDiscard, its busy flag is reset and
+    processEvent returns with no action busy: the stream is free to be left -/
+theorem timeout_releases_collapser (acts : List Act) (idx i : Nat) (hget : acts[idx]? = some (.collapser i))
+    (ps : PS) (hb : ps.busy = [idx]) (last fuel : Nat) :
+    procEv (fuel+2) acts .tmo (timeoutAction ps last) ps = (resetBusy ps idx, .stopped idx) ∧
+      busyTotal (resetBusy ps idx) = 0 := by
+  have hta : timeoutAction ps last = idx := by
+    unfold timeoutAction isBusy
+    rw [hb]
+    by_cases h : last = idx <;> simp [h]
+  have hbz : busyTotal (resetBusy ps idx) = 0 := by simp [busyTotal, resetBusy, hb]
+  refine ⟨?_, hbz⟩
+  rw [hta, procEv.eq_def]; simp only
+  rw [doActs.eq_def]; simp only [hget]
+  have hbusy : isBusy ps idx = true := by simp [isBusy, hb]
+  simp [hbusy, skips, hbz]
+
+/-- non-vacuity, and the whole turn: event 1 is collapsed (dropped, action busy), the time-out is
+    answered with a discard, the processor leaves the stream -/
+example : (discharge 40 [.plain 0, .collapser 1] (PS.init
+      [.ev { seq := 1, cs := [1] }, .tmo, .gap])).1.toks =
+    [.get 1, .drop 1, .getTimeout, .leave] := by decide +kernel
+
+/-- a collapse-only action downstream of a busy join: both get their time-out in turn -/
+example : (discharge 60 [.holder 0, .collapser 1] (PS.init
+      [.ev { seq := 1, js := [.start] }, .ev { seq := 2, js := [.other], cs := [1] }, .tmo, .gap])).1.toks =
+    [.get 1, .hold 1, .get 2, .propagate 1, .out 1, .drop 2, .getTimeout, .leave] := by decide +kernel
 
 end FileD.PropsC04Proc
